@@ -2295,6 +2295,7 @@ func (p *Parser) parseParenthesizedExpression(prec OpPrec, async []byte) IExpr {
 	// parse an Arguments expression but assume we might be parsing an (async) arrow function or ParenthesisedExpression. If this is really an arrow function, parsing as an Arguments expression cannot fail as AssignmentExpression, ArrayLiteral, and ObjectLiteral are supersets of SingleNameBinding, ArrayBindingPattern, and ObjectBindingPattern respectively. Any identifier that would be a BindingIdentifier in case of an arrow function, will be added as such to the scope. If finally this is not an arrow function, we will demote those variables as undeclared and merge them with the parent scope.
 
 	rests := 0
+	trailingComma := false
 	var args Args
 	for p.tt != CloseParenToken && p.tt != ErrorToken {
 		if 0 < len(args.List) && args.List[len(args.List)-1].Rest {
@@ -2316,6 +2317,7 @@ func (p *Parser) parseParenthesizedExpression(prec OpPrec, async []byte) IExpr {
 			break
 		}
 		p.next()
+		trailingComma = p.tt == CloseParenToken
 	}
 	if p.tt != CloseParenToken {
 		p.fail("expression")
@@ -2347,7 +2349,8 @@ func (p *Parser) parseParenthesizedExpression(prec OpPrec, async []byte) IExpr {
 
 		left = arrowFunc
 		precLeft = OpAssign
-	} else if !isAsync && (len(args.List) == 0 || hasLastRest) {
+	} else if !isAsync && (len(args.List) == 0 || hasLastRest || trailingComma) {
+		// a trailing comma is only allowed in arrow function parameters (and in arguments)
 		p.fail("arrow function", ArrowToken)
 		return nil
 	} else if isAsync && OpCall < prec || !isAsync && 0 < rests {
